@@ -120,6 +120,44 @@ def run_case(ctx, h, tmp):
                             {'case': h, 'format': fmt, 'fault': kind, 'object': oi, 'feature': f['name']})
         if undo:
             undo()
+        # determinism holds from every history: a save that failed must not leave anything behind that shows in later saves
+        if raised and ok:
+            try:
+                res.save(options=dict(opts))
+                a1 = open(path, 'rb').read()
+                res.save(options=dict(opts))
+                a2 = open(path, 'rb').read()
+                ctx.evaluations += 1
+                ctx.count('history/after-failed-save')
+                if a1 != a2:
+                    ctx.violate({'clause': 'not-deterministic', 'format': fmt, 'history': 'after-failed-save'},
+                                f'after a failed save ({kind}) two consecutive saves differ [{label}]',
+                                {'case': h, 'format': fmt, 'fault': kind, 'object': oi, 'feature': f['name']})
+            except Exception:
+                pass
+    # ... and from a resource that was loaded: a document written by another tool declares prefixes save() would not
+    if ok and fmt == 'xmi':
+        try:
+            from pyecore.resources import ResourceSet, URI
+            doc = b1.replace(b'xmlns:xmi=', b'xmlns:xsi="http://www.w3.org/2001/XMLSchema-instance" '
+                             b'xmlns:ecore="http://www.eclipse.org/emf/2002/Ecore" xmlns:xmi=', 1)
+            p2 = os.path.join(tmp, 'loaded.xmi')
+            with open(p2, 'wb') as fh:
+                fh.write(doc)
+            rset2 = ResourceSet()
+            rset2.metamodel_registry[m.pk.nsURI] = m.pk
+            r2 = rset2.get_resource(URI(p2))
+            r2.save(options=dict(opts))
+            c1 = open(p2, 'rb').read()
+            r2.save(options=dict(opts))
+            c2 = open(p2, 'rb').read()
+            ctx.evaluations += 1
+            ctx.count('history/after-load')
+            if c1 != c2:
+                ctx.violate({'clause': 'not-deterministic', 'format': fmt, 'history': 'after-load'},
+                            f'a loaded resource saved twice in a row gives different bytes [{label}]', {'case': h, 'format': fmt})
+        except Exception as e:
+            ctx.count('history/after-load-raised/' + type(e).__name__)
     if h < 2:
         ctx.sample({'case': h, 'format': fmt, 'options': label, 'objects': len(m.objs), 'fault_positions': len(positions)})
 
@@ -128,7 +166,7 @@ def run(ctx):
     common.use_repo()
     n = 80 if ctx.quick() else 2000
     ctx.rule = (f'{n} generated models x XMI/JSON x uuid x serialize-defaults: observable model (canonical dump, eIsSet, ownership) '
-                'before/after save, bytes of two consecutive saves; then every position at which an unserializable element can be '
+                'before/after save, bytes of two consecutive saves (on the fresh model, after every failed save, and on a resource loaded from a document that declares extra namespace prefixes); then every position at which an unserializable element can be '
                 'planted (an EString value whose conversion raises at each string attribute slot, an instance of a class that is in no '
                 'package in each many-valued containment) with a pre-existing file at the target. non-trivial & distinct = saves that '
                 'completed + faulted saves that raised')
